@@ -119,6 +119,7 @@ Lemma fam_hook1_sane tp hk tp' : QInv cfg (p_quals (snd tp)) -> vals_utf8 (p_qua
   QInv cfg (p_quals (snd tp')) /\ vals_utf8 (p_quals (snd tp')).
 Proof.
   destruct tp as [t p]. cbn [snd]. intros HQ HU. destruct hk; cbn [fam_hook1]; intros H; try discriminate H; injection H as <-; cbn [snd p_quals with_name with_quals]; try (split; assumption);
+    try (split; [apply QInv_nil|constructor]);
     apply q_set_sane; try assumption; reflexivity.
 Qed.
 Theorem fam_sane c r hks : hook_sane cfg (fam_shape cfg c r hks).
